@@ -62,6 +62,17 @@ fn load_rom(rom_file_name: String) -> Option<emulator::Core> {
     return None;
   }
 
+  // The ROM is mapped at the size the header declares; a file that holds less
+  // than that cannot be run
+  let declared_size = header.get_rom_size_bytes() as u64;
+  match rom_file.metadata() {
+    Ok(metadata) if metadata.len() >= declared_size => (),
+    _ => {
+      println!("ROM file is smaller than the {} bytes its header declares", declared_size);
+      return None;
+    },
+  }
+
   println!("Loading \"{}\"", header.get_title());
 
   Some(emulator::Core::from_rom_file(&mut rom_file, header))
